@@ -13,7 +13,8 @@ import writemodel as wm
 
 PROP = "C16"
 MODEL_TARGETS = ["Corr/WriteShow.vo"]
-THEOREMS = ["C16_data_frame", "C16_curves_frame", "C16_params_frame", "C16_well_frame", "C16_version_frame", "C16_state_depends_on_wrap_only", "C16_vers_untouched", "C16_standardize_idem", "C16_refresh_idem", "C16_write_text_function_of_state", "C16_idempotent_partial", "C16_idempotent_nowrap", "C16_need_created", "C16_need_changed", "C16_need_stop_differs_int", "C16_need_stop_differs_float", "C16_units_aligned", "C16_truth", "C16_truth_texts", "C16_header_frame", "C16_version_in_memory"]
+THEOREMS = ["C16_data_frame", "C16_curves_frame", "C16_params_frame", "C16_well_frame", "C16_version_frame", "C16_state_depends_on_wrap_only", "C16_vers_untouched", "C16_standardize_idem", "C16_refresh_idem", "C16_write_text_function_of_state", "C16_idempotent_partial", "C16_idempotent_nowrap", "C16_need_created", "C16_need_changed", "C16_need_stop_differs_int", "C16_need_stop_differs_float", "C16_units_aligned", "C16_truth", "C16_truth_texts", "C16_header_frame", "C16_version_in_memory",
+            "C16_standardize_current"]
 ASSUMPTIONS = [
     "'to format precision' = the text \"%.5f\" % x that CPython prints (oracle fmtv / fmt_diff)",
     "STRT/STOP/STEP keyword arguments are left to lasio (None), as the property says",
